@@ -99,6 +99,12 @@ func runC18(t *testing.T, rc *core.RunCtx) {
 			addPair(n, []string{"SrcDisconnected", "SrcConnecting", "SrcConnected", "SrcDisconnecting"}[i])
 		}
 	}
+	// the target may be busy with transitions of its own (never vetoing):
+	// forwarded mutations are then queued behind them
+	busyOps := 0
+	if tp.Draw(3) == 0 {
+		busyOps = tp.Range(1, 4)
+	}
 	nTasks := tp.Range(1, 2)
 	type op struct {
 		kind  int // 0 add 1 remove 2 toggle 3 adderr
@@ -117,7 +123,7 @@ func runC18(t *testing.T, rc *core.RunCtx) {
 		}
 		progs = append(progs, prog)
 	}
-	rc.Desc = fmt.Sprintf("pipe=%s multi=%v pairs=%v progs=%v", kind, multi, pairs, progs)
+	rc.Desc = fmt.Sprintf("pipe=%s multi=%v pairs=%v progs=%v busy=%d", kind, multi, pairs, progs, busyOps)
 	core.Bubble(t, rc, func(s *core.Sim) {
 		ctx, stop := context.WithCancel(context.Background())
 		defer stop()
@@ -125,7 +131,27 @@ func runC18(t *testing.T, rc *core.RunCtx) {
 		s.TimeWeight = 30
 		s.HookFilter = func(pt, detail string) bool { return strings.HasPrefix(pt, "pipe.") }
 		src := am.New(ctx, srcSchema, &am.Opts{Id: "src", HandlerTimeout: 100000 * time.Hour})
+		if busyOps > 0 {
+			tgtSchema["Busy"] = am.State{Multi: true}
+		}
 		tgt := am.New(ctx, tgtSchema, &am.Opts{Id: "tgt", HandlerTimeout: 100000 * time.Hour})
+		if busyOps > 0 {
+			// a slow final handler of the target's own state: it parks, the
+			// scheduler decides what the source does meanwhile
+			_, err := tgt.HandlersBindMaps(nil, map[string]am.HandlerFinal{
+				"Busy" + am.SuffixState: func(e *am.Event) { s.Yield("h.busy", "") },
+			})
+			if err != nil {
+				s.Fail("harness/bind", "busy handler: %v", err)
+				return
+			}
+			s.Go("busy", func() {
+				for i := 0; i < busyOps; i++ {
+					tgt.Add1("Busy", nil)
+					s.Op()
+				}
+			})
+		}
 		px := &pipeTarget{Machine: tgt, s: s}
 		var err error
 		switch kind {
@@ -218,7 +244,14 @@ func runC18(t *testing.T, rc *core.RunCtx) {
 				s.Fail("C18/diverged/BindErr", "source has Exception active, the target's ErrPipe is not (src %s tgt %s)", src.String(), tgt.String())
 			}
 		case "BindAny":
-			if !sameSet(src.ActiveStates(nil), tgt.ActiveStates(nil)) {
+			// (states of the target's own, like Busy, are not the pipe's business)
+			var piped am.S
+			for _, n := range tgt.ActiveStates(nil) {
+				if src.Has1(n) {
+					piped = append(piped, n)
+				}
+			}
+			if !sameSet(src.ActiveStates(nil), piped) {
 				s.Fail("C18/diverged/BindAny", "active sets differ once the source stopped changing: src %s tgt %s", src.String(), tgt.String())
 			}
 		default:
